@@ -189,7 +189,7 @@ fn commands() -> Vec<(&'static str, KeyEvent)> {
     ]
 }
 
-struct TraceGen {
+pub struct TraceGen {
     tracer: Tracer,
     /// TTLs that never answer (hops without any address)
     silent: Vec<u8>,
@@ -204,7 +204,22 @@ struct TraceGen {
 }
 
 impl TraceGen {
-    fn apply_round(&mut self, rng: &mut StdRng) -> Value {
+    /// A generator over a non-running tracer (used by the report driver).
+    pub fn new(tracer: Tracer, rng: &mut StdRng, first_ttl: u8, multipath: bool, target: IpAddr) -> Self {
+        Self {
+            tracer,
+            silent: (1..30u8).filter(|_| rng.random_range(0..5) == 0).collect(),
+            round: 0,
+            seq: 33434,
+            first_ttl,
+            branches: if multipath { rng.random_range(1..4) } else { 1 },
+            len: rng.random_range(0..10),
+            reach: rng.random_bool(0.6),
+            target,
+        }
+    }
+
+    pub fn apply_round(&mut self, rng: &mut StdRng) -> Value {
         let branch = rng.random_range(0..self.branches);
         // the path length drifts
         match rng.random_range(0..8) {
